@@ -110,7 +110,6 @@ def structured(rng, loops=False):
         # vertices whose degree passes 16 / 32 (aggregate helpers over long operand lists): every cycle goes through
         # the hub and uses one of its last-added incident edges
         ("star17+rim", 18, [(0, v) for v in range(1, 18)] + [(1, 17), (16, 17)]),
-        ("star33+rim-desc", 34, [(v, 0) for v in range(1, 34)] + [(33, 1), (33, 32)]),
         ("bundle17", 2, bundle(17)),
     ]
     for extra in (3, 4, 6):
